@@ -662,7 +662,7 @@ def select_quick(hs, mode, seed):
     return keep
 
 
-def run_cells(run, mode, only=None, extra=None):
+def run_cells(run, mode, only=None, extra=None, extra_preamble=""):
     from .kani import Overlay, decide, run_kani
     tier = run.tier
     arms, hs = cells_for(run, mode, tier, run.seed)
@@ -676,7 +676,7 @@ def run_cells(run, mode, only=None, extra=None):
     if only:
         hs = [h for h in hs if only in h.name]
     ov = Overlay(run, "cells")
-    ov.preamble(EVAL, PREAMBLE)
+    ov.preamble(EVAL, PREAMBLE + extra_preamble)
     for h in hs:
         ov.add(getattr(h, "file", EVAL), h)
     ov.write()
